@@ -292,6 +292,10 @@ pub fn minimise(prop: &str, clause: &str, t: &Trace, scratch: &Scratch) -> (Trac
             let (m, ch) = crate::crash::minimise(prop, clause, c);
             (Trace::Bytes(m), ch)
         }
+        Trace::Pipeline(c) => {
+            let (m, ch) = crate::pipeline::minimise(prop, clause, c, scratch);
+            (Trace::Pipeline(m), ch)
+        }
         Trace::Rules(c) => {
             let (m, ch) = crate::rules::minimise(prop, clause, c, scratch);
             (Trace::Rules(m), ch)
